@@ -20,6 +20,8 @@ var checks = map[string]func(*ev.Ctx){
 	"C04": props.C04,
 	"C05": props.C05,
 	"C06": props.C06,
+	"C10": props.C10,
+	"C11": props.C11,
 	"C12": props.C12,
 	"C15": props.C15,
 	"C16": props.C16,
